@@ -8,7 +8,8 @@ Line protocol of the filter model (parsing and printing only).
 filters reset                               -> ok
 filters env <block> <val>                   -> ok        output of a control/source block
 filters def <id> edge <r> <f> <ur> <uf>     -> ok        each `-` (argument omitted) | 0 | 1, <ur> also n (None)
-filters def <id> nfu | delta <num> | ifout <block> | ifnotinit <block>
+filters kind <block> c|s                    -> ok        the block is a CBlock / an SBlock (default)
+filters def <id> nfu | delta <num> | ifout <block> | ifnotinit <block>     (-> err TypeError: wrong block type)
 filters def <id> edit <op>*                 -> ok        add:<data> setdef:<data> addout:<key>:<block> copy:<a>:<b>
                                                          rename:<a>:<b> del:<k,k> permit:<k,k> mod:<key>:<fn…>
 filters def <id> user <muts> <ret>          -> ok        muts: - | set:<k>=<v>+del:<k>+…   ret: val:<v> map:<data> self
@@ -23,7 +24,13 @@ namespace Edzed.Filters
 structure DState where
   env : List (String × Val) := []
   filters : List (String × Filter) := []
+  kinds : List (String × BlockKind) := []      -- blocks that are not SBlocks
   deriving Inhabited
+
+def DState.kindOf (s : DState) (b : String) : BlockKind :=
+  match s.kinds.find? (·.1 == b) with
+  | some p => p.2
+  | none => .sblock
 
 def DState.envFn (s : DState) : Env := fun n =>
   match s.env.find? (·.1 == n) with
@@ -123,7 +130,12 @@ def userFn (muts : List Mut) (ret : Ret) : Data → Data × FRes := fun d =>
       | some v => .other v
       | none => .raise .keyError)
 
-def parseFilter : List String → Option Filter
+/-- a DataEdit object built the way the harness builds it: the first operation on the class, the others
+    chained on the object it returned -/
+def buildDataEdit (ops : List EditOp) : Filter :=
+  .dataEdit ((ops.foldl (fun acc op => some (dataEditOp acc op)) (none : Option (List EditOp))).getD dataEditNew)
+
+def parseFilter (s : DState) : List String → Option (Except Err Filter)
   | ["edge", r, f, ur, uf] => do
     let r ← parseFlag r
     let f ← parseFlag f
@@ -134,18 +146,18 @@ def parseFilter : List String → Option Filter
     let a := match f with | some b => { a with fall := b } | none => a
     let a := match ur with | some b => { a with uRise := b } | none => a
     let a := match uf with | some b => { a with uFall := b } | none => a
-    pure (Filter.mkEdge a)
-  | ["nfu"] => some .notFromUndef
+    pure (.ok (Filter.mkEdge a))
+  | ["nfu"] => some (.ok .notFromUndef)
   | ["delta", v] => do
     let (q, _) ← (Val.parse v) >>= numParts?
-    pure (Filter.mkDelta q)
-  | ["ifout", b] => some (.ifOutput b)
-  | ["ifnotinit", b] => some (.ifNotInitialized b)
-  | "edit" :: ops => Filter.dataEdit <$> ops.mapM parseEditOp
+    pure (.ok (Filter.mkDelta q))
+  | ["ifout", b] => some (Filter.mkIfOutput (s.kindOf b) b)
+  | ["ifnotinit", b] => some (Filter.mkIfNotInitialized (s.kindOf b) b)
+  | "edit" :: ops => (fun l => .ok (buildDataEdit l)) <$> ops.mapM parseEditOp
   | ["user", m, r] => do
     let m ← parseMuts m
     let r ← parseRet r
-    pure (.user (userFn m r))
+    pure (.ok (.user (userFn m r)))
   | _ => none
 
 def renderFRes : FRes → String
@@ -165,9 +177,14 @@ def handle (s : DState) : List String → DState × String
     match Val.parse v with
     | some x => ({ s with env := (b, x) :: s.env.filter (·.1 != b) }, "ok")
     | none => (s, "bad-op")
+  | ["kind", b, k] =>
+    if k == "c" then ({ s with kinds := (b, .cblock) :: s.kinds.filter (·.1 != b) }, "ok")
+    else if k == "s" then ({ s with kinds := s.kinds.filter (·.1 != b) }, "ok")
+    else (s, "bad-op")
   | "def" :: id :: spec =>
-    match parseFilter spec with
-    | some f => (s.setFilter id f, "ok")
+    match parseFilter s spec with
+    | some (.ok f) => (s.setFilter id f, "ok")
+    | some (.error e) => (s, "err " ++ e.name)       -- the constructor raised: nothing is defined
     | none => (s, "bad-op")
   | ["call", id, d] =>
     match s.getFilter id, Data.parse d with
